@@ -1578,7 +1578,31 @@ def _expand_literal_generators(tree):
         ast.fix_missing_locations(f)
 
 
+def _unroll_module_level_loops(tree):
+    """A module-level `for a, b in ((..), (..)): stmt(a, b)` over a literal
+    is read as the statements it performs (registrations written as a
+    loop); `del a, b` of the loop targets afterwards is dropped."""
+    if not isinstance(tree, ast.Module):
+        return
+    out, dropped = [], set()
+    for st in tree.body:
+        if isinstance(st, ast.For):
+            un = _Unroll(None)
+            res = un.visit_For(st)
+            if isinstance(res, list):
+                out.extend(res)
+                dropped |= set(_targets(st.target) or [])
+                continue
+        if isinstance(st, ast.Delete) and dropped and all(
+                isinstance(t, ast.Name) and t.id in dropped
+                for t in st.targets):
+            continue
+        out.append(st)
+    tree.body = out
+
+
 def canonical_forms(tree):
+    _unroll_module_level_loops(tree)
     _expand_literal_generators(tree)
     _split_tuple_assigns(tree)
     _inline_return_temps(tree)
